@@ -51,7 +51,27 @@ def main():
 
     # ---- 1. translator
     genrep = gen.generate(REPO)
-    mine = {k: v for k, v in genrep.items() if k in getattr(H, 'GEN', [])}
+    # every Gen module in the import closure of the property's theorems and of its driver ops is part of its tie
+    # (the harness GEN list is the builder's own statement of it; the closure is computed from the Lean files)
+    closure = set(getattr(H, 'GEN', []))
+    for m_ in [f'LentilVerif.Props.{prop}'] + [f'Driver.Ops.{o}' for o in getattr(H, 'OPS', [prop])]:
+        for dep in vlib.lean_deps(m_):
+            if dep.startswith('LentilVerif.Gen.'): closure.add(dep.split('.')[-1])
+    # ... restricted to modules regenerated from source files this property is anchored in or pins, so that a
+    # refusal in an unrelated module (reachable only through shared Lean imports) is not this property's alarm
+    relevant = set()
+    try:
+        for l in open(os.path.join(VERIF, 'properties.jsonl')):
+            pj = json.loads(l)
+            if pj['id'] == prop: relevant |= set(pj['anchors'].get('files', []))
+        pf = os.path.join(HERE, 'pins', f'{prop}.json')
+        if os.path.exists(pf): relevant |= set(json.load(open(pf)).keys())
+    except Exception:
+        pass
+    declared = set(getattr(H, 'GEN_STRICT', []))          # modules a harness insists on regardless of the source file
+    mine = {k: v for k, v in genrep.items()
+            if k in closure and (prop in v.get('props', []) or v['src'] in relevant or k in declared or not relevant
+                                 or (k in getattr(H, 'GEN', []) and v['src'] == 'lentil/__init__.py'))}
     for k, v in mine.items():
         if not v['ok']: broken['translator'].append(f"Gen/{k}.lean from {v['src']}: {v['refused']}")
     # a refusal in a module this property does not import is not this property's business
